@@ -40,5 +40,7 @@ def main(argv):
         common.main_wrapper(lambda: selftest.run(a.tier))
     mod = importlib.import_module(MODULES[a.pid])
     if a.replay:
-        common.main_wrapper(lambda: mod.replay(a.pid, a.replay))
+        if hasattr(mod, "replay"):
+            common.main_wrapper(lambda: mod.replay(a.pid, a.replay))
+        common.main_wrapper(lambda: common.generic_replay(a.pid, a.replay, mod))
     common.main_wrapper(lambda: mod.run(a.pid, a.tier))
